@@ -35,6 +35,9 @@ type evSpec struct {
 	Missing bool  `json:"missing_parent,omitempty"` // additionally names a parent that never exists
 	Size    int   `json:"size"`
 	Fail    int   `json:"fail,omitempty"`
+	// Lamport, when non-zero, is the Lamport time the event CLAIMS (the buffer sees events before anything about their
+	// parents could be verified, so the field is whatever the peer wrote); zero = one more than the parents' maximum
+	Lamport uint32 `json:"claimed_lamport,omitempty"`
 }
 
 const (
@@ -106,6 +109,9 @@ func buildWorld(specs []evSpec) *world {
 			ps = append(ps, me.ID())
 		}
 		lam[i] = l + 1
+		if s.Lamport != 0 {
+			lam[i] = idx.Lamport(s.Lamport)
+		}
 		e.SetParents(ps)
 		e.SetLamport(lam[i])
 		e.SetID(eventID(i))
@@ -130,6 +136,9 @@ func (w *world) describe() string {
 			b.WriteString(" + a parent that never exists")
 		}
 		fmt.Fprintf(&b, "  size=%d", s.Size)
+		if s.Lamport != 0 {
+			fmt.Fprintf(&b, "  claims lamport %d", s.Lamport)
+		}
 		if s.Fail != failNone {
 			fmt.Fprintf(&b, "  [%s]", failNames[s.Fail])
 		}
